@@ -126,6 +126,25 @@ Proof.
 Qed.
 Print Assumptions C01_query.
 
+(* Consequence for callers: a non-empty query [s,e) inside a wider one [s',e') returns exactly the wider
+   answer clip-filtered again (same values, same order, bit-identical) - zooming in client-side and asking
+   the file again are interchangeable (Proofs/BwNarrow.clip_filter_narrow). *)
+From BT Require Proofs.BwNarrow.
+Theorem C01_query_narrow : forall fp o sizes inp bs i infl c vs s e s' e',
+  opts_ok o -> input_ok sizes inp -> Nlen bs < U64 ->
+  bw_write fp o sizes inp = Ok bs \/ bw_write_multipass fp o sizes inp = Ok bs ->
+  read_info bs = Ok i -> In (c, vs) (runs inp) -> s' <= s -> e <= e' -> s < e ->
+  exists wide, bw_interval infl bs i c s' e' = Ok wide
+    /\ bw_interval infl bs i c s e = Ok (clip_filter s e wide).
+Proof.
+  intros fp o sizes inp bs i infl c vs s e s' e' Ho Hi Hs H Hri Hin H1 H2 H3.
+  exists (clip_filter s' e' vs). split.
+  - exact (C01_query fp o sizes inp bs i infl c vs s' e' Ho Hi Hs H Hri Hin).
+  - rewrite (C01_query fp o sizes inp bs i infl c vs s e Ho Hi Hs H Hri Hin). f_equal.
+    symmetry. apply Proofs.BwNarrow.clip_filter_narrow; assumption.
+Qed.
+Print Assumptions C01_query_narrow.
+
 (* THE ROUND TRIP (single pass): reading the full span of a chromosome that had data returns its
    accepted values, same triples, same order, bit-identical values, except zero-length values at
    position 0 / at the chromosome end (known finding K1, C01_zero_length_boundary_refuted) *)
